@@ -53,6 +53,13 @@ def make(rng, sid, hist):
     s.add("RF", 0, h(rel), h(delim), h(comment))
     s.add("RAW", 0); s.add("RAWL", 0); s.add("DUMPX", 0)
     s.add("PATH", 0)
+    if rng.random() < 0.3:
+        # the object is written out (to another place) in between: the answers stay what they were
+        s.mkdir(b"/copy")
+        s.add("W", 0, h(b"/copy"), h(b"doc.conf"))
+        s.add("DUMPX", 0)
+        s.add("PATH", 0)
+        s.meta["written"] = True
     if cd:
         # the application changes its working directory after the read (as a daemon does): the object still names the
         # file it was read from, also when the new directory has a file of the same relative name
@@ -101,6 +108,22 @@ def oracle(s, lines):
     paths = [l for l in lines if l.startswith("path ")]
     if len(paths) < 2 or paths[0] != "path " + h(PATH):
         return "path query %r, expected %r (file named %s)" % (paths[:1], PATH, s.meta["way"])
+    if s.meta.get("written"):
+        # the extended dump taken after econf_writeFile is line for line the one taken before it
+        if "w E0" not in lines:
+            return "writing the object to another directory failed"
+        views = [i for i, l in enumerate(lines) if l.startswith("view groups")]
+        p0 = next(i for i, l in enumerate(lines) if l.startswith("path "))
+        if len(views) < 2:
+            return "no second dump"
+        before = lines[views[0]:p0]
+        after = lines[views[1]:views[1] + len(before)]
+        if before != after:
+            d = next((i for i, (a, b) in enumerate(zip(before, after)) if a != b), min(len(before), len(after)))
+            return "after econf_writeFile the object answers differently: %r, before %r" % (after[d:d + 1], before[d:d + 1])
+        if paths[1] != "path " + h(PATH):
+            return "path query after econf_writeFile %r, expected %r" % (paths[1], PATH)
+        paths = [paths[0]] + paths[2:]
     if s.meta.get("moved"):
         if paths[1] != "path " + h(PATH):
             return "path query after chdir %r, expected %r (file named %s)" % (paths[1], PATH, s.meta["way"])
